@@ -1322,6 +1322,7 @@ impl Iterator for FileIterator<'_> {
                     }
                 };
                 let Some(file_entry) = file_entry.cloned() else {
+                    self.count = self.file_entries.len();
                     return Some(Err(Error::Io(io::Error::new(
                         io::ErrorKind::InvalidData,
                         "archive entry does not belong to any file of the header",
@@ -1332,9 +1333,11 @@ impl Iterator for FileIterator<'_> {
                 let mut content = Vec::new();
 
                 if let Err(e) = entry_reader.read_to_end(&mut content) {
+                    self.count = self.file_entries.len();
                     return Some(Err(Error::Io(e)));
                 }
                 if let Err(e) = entry_reader.finish() {
+                    self.count = self.file_entries.len();
                     return Some(Err(Error::Io(e)));
                 }
 
@@ -1343,7 +1346,11 @@ impl Iterator for FileIterator<'_> {
                     content,
                 }))
             }
-            Err(e) => Some(Err(Error::Io(e))),
+            Err(e) => {
+                // the archive cannot be read any further: report the error once, then end the iteration
+                self.count = self.file_entries.len();
+                Some(Err(Error::Io(e)))
+            }
         }
     }
 }
